@@ -80,7 +80,7 @@ func legalAmount(pre *pf.GameState, op Op) bool {
 	case "Bet":
 		return op.Arg >= pre.Status.MiniBet && op.Arg > 0 && op.Arg <= S
 	case "Raise":
-		return op.Arg >= pre.Status.CurrentWager+pre.Status.PreviousRaiseSize && op.Arg > pre.Status.CurrentWager && op.Arg <= S
+		return op.Arg >= satAdd(pre.Status.CurrentWager, pre.Status.PreviousRaiseSize) && op.Arg > pre.Status.CurrentWager && op.Arg <= S
 	}
 	return true
 }
